@@ -708,6 +708,7 @@ func ruleFMT1(c *Ctx) {
 		})
 		c.check(okRow, rule, "codegen.EmitLexer/row-per-state", p.Pos(w.transLoop.Pos()), "every DFA state's row is added unconditionally under the state's own ID", "a state's row is not added unconditionally under State.ID")
 	}
+	checkWriterActionOrder(c, rule, w)
 	// order: header, transitions, actions
 	c.check(w.transLoop.End() <= w.actNode.Pos(), rule, "codegen.EmitLexer/section-order", p.Pos(w.actNode.Pos()),
 		"transitions are appended before actions", "actions are appended before the transitions: the reader skips gotoN*3 words to find the actions")
@@ -1684,16 +1685,23 @@ func ruleFMT6(c *Ctx) {
 			continue
 		}
 		okRow := false
+		whyRow := "rows are not stored under ItemSet.Index"
+		flPar := parents(fl)
 		ast.Inspect(fl, func(n ast.Node) bool {
 			call, ok := n.(*ast.CallExpr)
 			if ok && len(call.Args) == 2 {
 				if fn := calleeFunc(info, call); fn != nil && fn.Name() == "AddRow" && isField(info, stripConv(info, call.Args[0]), "parsergen/lr1", "ItemSet", "Index") {
-					okRow = true
+					// every state gets its row: the reader indexes the table by state number
+					if facts := pathConds(info, flPar, call); len(facts) == 0 {
+						okRow = true
+					} else {
+						whyRow = fmt.Sprintf("a state's row is added only under `%s`: the index vector of the table then has holes (or is too short) for states the reader can look up", exprString(facts[0].e))
+					}
 				}
 			}
 			return true
 		})
-		c.check(okRow, rule, "codegen.EmitParser/"+g+"/row-key", p.Pos(fl.Pos()), "rows are stored under the state's Index", "rows are not stored under ItemSet.Index")
+		c.check(okRow, rule, "codegen.EmitParser/"+g+"/row-key", p.Pos(fl.Pos()), "every state's row is stored, unconditionally, under the state's Index", whyRow)
 	}
 	// lhs / term counts: position = production index
 	checkPosTable := func(g, what string, valOK func(e ast.Expr) bool) {
@@ -2010,4 +2018,41 @@ func hasBranchOut(body *ast.BlockStmt) bool {
 		return true
 	})
 	return found
+}
+
+// checkWriterActionOrder: the actions are written in the order of the rule's action list: the loop
+// that emits them ranges over Actions.Actions itself, not over a re-ordered or filtered copy.
+func checkWriterActionOrder(c *Ctx, rule string, w *lexWriter) {
+	p := c.Prog
+	info := w.pk.TypesInfo
+	wpar := parents(w.fn)
+	var loopX ast.Expr
+	for q := wpar[w.actNode]; q != nil; q = wpar[q] {
+		if rs, ok := q.(*ast.RangeStmt); ok {
+			loopX = rs.X
+			break
+		}
+	}
+	okOrder := false
+	whyOrder := "the loop emitting the actions was not found"
+	if loopX != nil {
+		src := resolveVia(info, localDefs(info, w.fn), loopX)
+		switch {
+		case isField(info, src, "lexergen/mode", "Actions", "Actions"):
+			okOrder = true
+		default:
+			whyOrder = fmt.Sprintf("the actions are emitted from `%s`, not from the rule's action list itself: their order in the table can differ from the order the front end established (the reader stops at the first accept/discard/accum and runs push/pop in list order)", exprString(loopX))
+		}
+		// and nothing in the writer sorts that list in place
+		inspectNoLit(w.fn, func(n ast.Node) bool {
+			if call, ok := n.(*ast.CallExpr); ok && len(call.Args) >= 1 && (sortFuncs[fullName(calleeFunc(info, call))] || fullName(calleeFunc(info, call)) == "slices.Reverse") {
+				if isField(info, resolveVia(info, localDefs(info, w.fn), call.Args[0]), "lexergen/mode", "Actions", "Actions") {
+					okOrder = false
+					whyOrder = "the writer re-orders the rule's action list"
+				}
+			}
+			return true
+		})
+	}
+	c.check(okOrder, rule, "codegen.EmitLexer/action-order", p.Pos(w.actNode.Pos()), "actions are written in the order of the rule's action list", whyOrder)
 }
